@@ -383,26 +383,42 @@ impl IsoDate {
         // 1. Assert: year, month, day, years, months, weeks, and days are integers.
         // 2. Assert: overflow is either "constrain" or "reject".
         // 3. Let intermediate be ! BalanceISOYearMonth(year + years, month + months).
-        let intermediate = balance_iso_year_month(
-            self.year + duration.years.as_date_value()?,
-            i32::from(self.month) + duration.months.as_date_value()?,
-        );
+        // NOTE: the duration fields are only known to fit an `i32`, so the sums
+        // are computed in `i64` and checked against the representable range
+        // before they are handed to the `i32` date equations.
+        let out_of_range =
+            || TemporalError::range().with_message("Date is outside of the valid range.");
+        let years = i64::from(self.year) + i64::from(duration.years.as_date_value()?);
+        let months = i64::from(self.month) + i64::from(duration.months.as_date_value()?);
+        let intermediate_year = years + (months - 1).div_euclid(12);
+        let intermediate_month = (months - 1).rem_euclid(12) + 1;
+        if !(-271_821..=275_760).contains(&intermediate_year) {
+            return Err(out_of_range());
+        }
 
         // 4. Let intermediate be ? RegulateISODate(intermediate.[[Year]], intermediate.[[Month]], day, overflow).
-        let intermediate =
-            Self::new_with_overflow(intermediate.0, intermediate.1, self.day, overflow)?;
+        let intermediate = Self::new_with_overflow(
+            intermediate_year as i32,
+            intermediate_month as u8,
+            self.day,
+            overflow,
+        )?;
 
         // 5. Set days to days + 7 × weeks.
-        let additional_days =
-            duration.days.as_date_value()? + (duration.weeks.as_date_value()? * 7);
+        let additional_days = i64::from(duration.days.as_date_value()?)
+            + (i64::from(duration.weeks.as_date_value()?) * 7);
         // 6. Let d be intermediate.[[Day]] + days.
-        let intermediate_days = i32::from(intermediate.day) + additional_days;
+        let intermediate_days = i64::from(intermediate.day) + additional_days;
+        // A day offset larger than the whole representable range can never land inside it.
+        if intermediate_days.abs() > 2 * (MAX_EPOCH_DAYS as i64 + 1) {
+            return Err(out_of_range());
+        }
 
         // 7. Return BalanceISODate(intermediate.[[Year]], intermediate.[[Month]], d).
         Ok(Self::balance(
             intermediate.year,
             intermediate.month.into(),
-            intermediate_days,
+            intermediate_days as i32,
         ))
     }
 
